@@ -252,12 +252,12 @@ func genC10(g *mon.G) {
 
 func init() {
 	Register(&mon.Check{
-		ID:    "C10",
-		Level: "exploration",
-		Rule: "cases = seeded CARv1 payloads x; per case: WrapV1 (option matrix) and WrapV1File (fresh and over a larger file), ExtractV1File of 4 CARv2 renderings (wrap(x), padded+index, index-less, index without padding) into 4 destination states (absent, larger, smaller, in place), ExtractV1File of a CARv1, ReplaceRootsInFile on v1/padded v2/index-less v2 with 5-6 replacement root lists of equal and different encoded size; pure byte comparisons",
+		ID:          "C10",
+		Level:       "exploration",
+		Rule:        "cases = seeded CARv1 payloads x; per case: WrapV1 (option matrix) and WrapV1File (fresh and over a larger file), ExtractV1File of 4 CARv2 renderings (wrap(x), padded+index, index-less, index without padding) into 4 destination states (absent, larger, smaller, in place), ExtractV1File of a CARv1, ReplaceRootsInFile on v1/padded v2/index-less v2 with 5-6 replacement root lists of equal and different encoded size; pure byte comparisons",
 		Assumptions: []string{"reference encoder (refcar) for CARv2 renderings and spliced headers"},
-		Gen:   genC10,
-		Run:   runC10,
-		MinCover: map[string]int{"wrap": 50, "extract:in-place": 50, "extract:larger-existing": 50, "replace-roots:same-size": 50, "replace-roots:different-size": 50, "wrapfile-over-larger-file": 10},
+		Gen:         genC10,
+		Run:         runC10,
+		MinCover:    map[string]int{"wrap": 50, "extract:in-place": 50, "extract:larger-existing": 50, "replace-roots:same-size": 50, "replace-roots:different-size": 50, "wrapfile-over-larger-file": 10},
 	})
 }
